@@ -296,16 +296,18 @@ def saveArgument (cfg : ECfg) (f : EFrame) : EFrame :=
 /-- the part of mcount_entry_filter_record that runs for a recorded frame while tracing is on:
     save_argument, save_trigger_read, save_watchpoint and the flush for asynchronous events.
     `f` is the frame just pushed, `rest` the frames below, `s` the state without it. -/
-def entryEvents (cfg : ECfg) (s : ESt) (f : EFrame) (rest : List EFrame) (matched : Bool) (o : Obs) : ESt :=
-  let f2 := if matched then saveArgument cfg f else f
+def entryEvents (cfg : ECfg) (s : ESt) (f : EFrame) (rest : List EFrame) (matched argok : Bool) (o : Obs) : ESt :=
+  let f2 := if argok then saveArgument cfg f else f
   let mask := if matched then cfg.read f.b.addr else 0
   let f3 := if mask != 0 then { saveRead cfg f2 mask (rest.length + 1) false o with readFl := true } else f2
   let s1 := if cfg.watch then saveWatch cfg s f3.b rest.length o else s
   if hasAsync s1.pend then { s1 with frames := f3 :: rest }.recorded (recordTraceE cfg false (f3 :: rest) s1.pend)
   else { s1 with frames := f3 :: rest }
 
-/-- mcount_entry_filter_record on the frame just pushed -/
-def entryFilterRecordE (cfg : ECfg) (s : ESt) (tr : Trigger) (matched : Bool) (o : Obs) : ESt :=
+/-- mcount_entry_filter_record on the frame just pushed. `matched`: the trigger was looked up
+    (FILTER_IN); `argok`: the hook supports arguments and return values (__cygprof_entry clears
+    TRIGGER_FL_ARGUMENT | TRIGGER_FL_RETVAL) -/
+def entryFilterRecordE (cfg : ECfg) (s : ESt) (tr : Trigger) (matched argok : Bool) (o : Obs) : ESt :=
   match s.frames with
   | [] => s
   | f :: rest =>
@@ -317,7 +319,7 @@ def entryFilterRecordE (cfg : ECfg) (s : ESt) (tr : Trigger) (matched : Bool) (o
       filtered := tr.filter == some true,
       notrace := tr.filter == some false,
       trace := tr.trace, caller := tr.caller }
-    let f1 : EFrame := { f with b := b1, retFl := matched && (cfg.retSize f.b.addr).isSome }
+    let f1 : EFrame := { f with b := b1, retFl := argok && (cfg.retSize f.b.addr).isSome }
     if tr.finish then
       { ({ s with frames := f1 :: rest }.recorded (recordTraceE cfg false (f1 :: rest) s.pend)) with finished := true }
     else if nr then { s with frames := f1 :: rest } else
@@ -327,7 +329,7 @@ def entryFilterRecordE (cfg : ECfg) (s : ESt) (tr : Trigger) (matched : Bool) (o
       let f2 : EFrame := { f1 with b := { b1 with disabled := true } }
       if s.enableCached then { s0 with frames := f2 :: rest }.recorded (recordTraceE cfg false (f2 :: rest) s.pend)
       else { s0 with frames := f2 :: rest }
-    else entryEvents cfg s0 f1 rest matched o
+    else entryEvents cfg s0 f1 rest matched argok o
 
 /-- the tail of mcount_exit_filter_record for a recorded frame while tracing is on -/
 def exitEvents (cfg : ECfg) (s : ESt) (f : EFrame) (rest : List EFrame) (timeFilter : Nat) (retv : Bool)
@@ -367,13 +369,13 @@ def entryE (cfg : ECfg) (k : Kind) (s : ESt) (addr now : Nat) (o : Obs) : ESt ×
   | .pg =>
     if c.1 != .in_ then (s1, false) else
     let f : EFrame := { b := { addr := addr, start := now, depth := s1.recordIdx } }
-    (entryFilterRecordE cfg { s1 with frames := f :: s1.frames } tr true o, true)
+    (entryFilterRecordE cfg { s1 with frames := f :: s1.frames } tr true true o, true)
   | .cyg =>
     if c.1 == .rstack then ({ s1 with over := s1.over + 1 }, true) else
     let isIn := c.1 == .in_
     let f : EFrame := { b := { addr := addr, start := if isIn then now else 0, depth := s1.recordIdx,
                                cyg := true, norecord := !isIn } }
-    (entryFilterRecordE cfg { s1 with frames := f :: s1.frames } tr isIn o, true)
+    (entryFilterRecordE cfg { s1 with frames := f :: s1.frames } tr isIn false o, true)
 
 /-- exit hook for the innermost frame -/
 def exitE (cfg : ECfg) (s : ESt) (now : Nat) (o : Obs) : ESt :=
